@@ -152,11 +152,15 @@ func (f *Formatter) formatComment(comments ast.Comments, sep string, level int) 
 			buf.WriteString("\n")
 		}
 		// #FASTLY macros are not indented
-		if !strings.HasPrefix(comments[i].String(), "#FASTLY") {
+		isMacro := strings.HasPrefix(comments[i].String(), "#FASTLY")
+		if !isMacro {
 			buf.WriteString(f.indent(level))
 		}
-		switch f.conf.CommentStyle {
-		case config.CommentStyleSharp, config.CommentStyleSlash:
+		switch {
+		case isMacro:
+			// the macro is recognised by its exact "#FASTLY" prefix, never restyle it
+			buf.WriteString(comments[i].String())
+		case f.conf.CommentStyle == config.CommentStyleSharp, f.conf.CommentStyle == config.CommentStyleSlash:
 			r := '#' // default as sharp style comment
 			if f.conf.CommentStyle == config.CommentStyleSlash {
 				r = '/'
